@@ -493,3 +493,304 @@ Proof.
     rewrite E1, E2. ring. }
   unfold X in HX. unfold Y in HY. repeat split; lra.
 Qed.
+
+(* ---------- every interior node of every bar: the chain hypothesis of C01 / C02 / C03 ---------- *)
+
+(* node equilibrium at every interior node of a chain of (node, numbers) *)
+Definition interior_ok (b : bar Q) (u : list Q) (nds : list (pnode Q * dof3)) : Prop :=
+  forall P x0 x1 x2 S, nds = P ++ x0 :: x1 :: x2 :: S ->
+    node_equilibrium b u (fst x0) (fst x1) (fst x2) (snd x0) (snd x1) (snd x2).
+
+Lemma interior_ok_tail b u x nds : interior_ok b u (x :: nds) -> interior_ok b u nds.
+Proof. intros H P x0 x1 x2 S E. apply (H (x :: P) x0 x1 x2 S). rewrite E. reflexivity. Qed.
+
+Definition strip_load (x : pnode Q * dof3 * slice_load) : pnode Q * dof3 := fst x.
+
+(* the parts of chain_ok that do not depend on the displacements *)
+Fixpoint chain_static (b : bar Q) (na : pnode Q) (rest : list (pnode Q * dof3 * slice_load)) : Prop :=
+  match rest with
+  | [] => True
+  | (nb, _, ld) :: rest' =>
+    ~ slice_len b na nb == 0 /\
+    lumped na nb (slice_len b na nb) (sl_p1 ld) (sl_q1 ld) (sl_m1 ld) (sl_p2 ld) (sl_q2 ld) (sl_m2 ld) /\
+    chain_static b nb rest'
+  end.
+
+Lemma chain_ok_from_interior b u : forall rest na da,
+  chain_static b na rest -> interior_ok b u ((na, da) :: map strip_load rest) -> chain_ok b u na da rest.
+Proof.
+  induction rest as [|[[nb db] ld] rest IH]; intros na da Hst Hint; [exact I|].
+  cbn [chain_static] in Hst. destruct Hst as (Hl & Hlump & Hst').
+  cbn [chain_ok]. split; [exact Hl|]. split; [exact Hlump|]. split.
+  - destruct rest as [|[[nc dc] ld'] rest']; [exact I|].
+    cbn [chain_static] in Hst'. destruct Hst' as (Hl' & _ & _). split; [exact Hl'|].
+    exact (Hint [] (na, da) (nb, db) (nc, dc) (map strip_load rest') eq_refl).
+  - apply IH; [exact Hst'|]. apply (interior_ok_tail b u (na, da)). exact Hint.
+Qed.
+
+(* what the numbering must provide: the three numbers of every interior slice node are its own
+   (C16: interior slice nodes have numbers of their own), carry no support, and have a row *)
+Definition interior_private (n : nat) (sup : list nat) (bars : list (pbar Q)) : Prop :=
+  forall B1 p B2 P x0 x1 x2 S, bars = B1 ++ p :: B2 -> pbar_nds p = P ++ x0 :: x1 :: x2 :: S ->
+    NoDup (d3_list (snd x1)) /\
+    forall i, In i (d3_list (snd x1)) ->
+      (i < n)%nat /\ is_supported sup i = false /\ row_empty (all_contribs bars) i = false /\
+      ~ In i (d3_list (snd x0)) /\ ~ In i (d3_list (snd x2)) /\ alone i B1 B2 (P ++ [x0]) (x2 :: S).
+
+(* geometry and stiffness of every finite element of a bar are sound *)
+Definition slices_sound (p : pbar Q) : Prop :=
+  good_bar (pb_bar p) /\ b_c (pb_bar p) * b_c (pb_bar p) + b_s (pb_bar p) * b_s (pb_bar p) == 1 /\
+  forall sl, In sl (bar_slices p) -> ~ slice_len (pb_bar p) (s_na sl) (s_nb sl) == 0 /\ no_tiny (s_k sl).
+
+Lemma chain_slices_mid b P x0 x1 S :
+  In {| s_b := b; s_na := fst x0; s_nb := fst x1; s_da := snd x0; s_db := snd x1 |} (chain_slices b (P ++ x0 :: x1 :: S)).
+Proof.
+  rewrite chain_slices_app. apply in_or_app. right. cbn [chain_slices]. left. reflexivity.
+Qed.
+
+(* THEOREM: whatever solves the assembled system puts every interior slice node of every bar in
+   equilibrium *)
+Theorem system_gives_interior_equilibrium n sup u bars :
+  Forall (nums_below n) (all_slices bars) -> interior_private n sup bars -> solves n bars sup u ->
+  forall B1 p B2, bars = B1 ++ p :: B2 -> slices_sound p -> interior_ok (pb_bar p) u (pbar_nds p).
+Proof.
+  intros Hn Hpriv Hs B1 p B2 Hb (Hgood & Hcs & Hsl) P x0 x1 x2 S Hnds.
+  destruct (Hpriv B1 p B2 P x0 x1 x2 S Hb Hnds) as (Hnd & Hi).
+  subst bars.
+  assert (H01 : In {| s_b := pb_bar p; s_na := fst x0; s_nb := fst x1; s_da := snd x0; s_db := snd x1 |} (bar_slices p)).
+  { rewrite bar_slices_chain. fold (pbar_nds p). rewrite Hnds. apply chain_slices_mid. }
+  assert (H12 : In {| s_b := pb_bar p; s_na := fst x1; s_nb := fst x2; s_da := snd x1; s_db := snd x2 |} (bar_slices p)).
+  { rewrite bar_slices_chain. fold (pbar_nds p). rewrite Hnds.
+    replace (P ++ x0 :: x1 :: x2 :: S) with ((P ++ [x0]) ++ x1 :: x2 :: S) by (rewrite <- app_assoc; reflexivity).
+    apply chain_slices_mid. }
+  destruct (Hsl _ H01) as (L01 & K01). destruct (Hsl _ H12) as (L12 & K12). cbn [s_na s_nb] in L01, L12.
+  exact (interior_node_equilibrium n sup u B1 B2 p P S x0 x1 x2 Hnds Hn Hs Hgood Hcs L01 L12 K01 K12 Hnd Hi).
+Qed.
+
+(* ... hence the chain hypothesis of the statics theorems (C02_chain_statics, C03_bar_equilibrium,
+   C01_field_across_node) holds for every bar whose nodal loads are the lumped loads *)
+Corollary system_gives_chain_ok n sup u bars :
+  Forall (nums_below n) (all_slices bars) -> interior_private n sup bars -> solves n bars sup u ->
+  forall B1 p B2 na da rest, bars = B1 ++ p :: B2 -> slices_sound p ->
+  pbar_nds p = (na, da) :: map strip_load rest -> chain_static (pb_bar p) na rest ->
+  chain_ok (pb_bar p) u na da rest.
+Proof.
+  intros Hn Hpriv Hs B1 p B2 na da rest Hb Hsound Hnds Hst.
+  apply chain_ok_from_interior; [exact Hst|]. rewrite <- Hnds.
+  exact (system_gives_interior_equilibrium n sup u bars Hn Hpriv Hs B1 p B2 Hb Hsound).
+Qed.
+
+(* ---------- decidable forms of the hypotheses (evaluated on the implementation's own sliced
+   structures by the correspondence, so that the theorems are known to apply to them) ---------- *)
+
+Definition interior_nds (p : pbar Q) : list (pnode Q * dof3) := removelast (tl (pbar_nds p)).
+Definition interior_nums (p : pbar Q) : list nat := nds_numbers (interior_nds p).
+
+Definition interior_private_b (n : nat) (sup : list nat) (bars : list (pbar Q)) : bool :=
+  forallb (fun i => Nat.eqb (count_occ Nat.eq_dec (bars_numbers bars) i) 1 && Nat.ltb i n
+                    && negb (is_supported sup i) && negb (row_empty (all_contribs bars) i))
+          (flat_map interior_nums bars).
+
+Lemma interior_nds_mid p P x0 x1 x2 S : pbar_nds p = P ++ x0 :: x1 :: x2 :: S -> In x1 (interior_nds p).
+Proof.
+  intros E. unfold interior_nds. rewrite E.
+  assert (G : tl (P ++ x0 :: x1 :: x2 :: S) = tl (P ++ [x0]) ++ x1 :: x2 :: S).
+  { destruct P as [|a P]; cbn [app tl]; [reflexivity|]. rewrite <- app_assoc. reflexivity. }
+  rewrite G. rewrite removelast_app by discriminate. apply in_or_app. right.
+  cbn [removelast]. left. reflexivity.
+Qed.
+
+Lemma count_occ_zero_notin (l : list nat) i : count_occ Nat.eq_dec l i = 0%nat -> ~ In i l.
+Proof. intros H. apply (count_occ_not_In Nat.eq_dec). exact H. Qed.
+
+Lemma bars_numbers_app a b : bars_numbers (a ++ b) = bars_numbers a ++ bars_numbers b.
+Proof. unfold bars_numbers. apply flat_map_app. Qed.
+
+Lemma interior_private_b_sound n sup bars : interior_private_b n sup bars = true -> interior_private n sup bars.
+Proof.
+  intros H B1 p B2 P x0 x1 x2 S Hb Hnds.
+  unfold interior_private_b in H. rewrite forallb_forall in H.
+  assert (Hin : forall i, In i (d3_list (snd x1)) -> In i (flat_map interior_nums bars)).
+  { intros i Hi. apply in_flat_map. exists p. split; [rewrite Hb; apply in_or_app; right; left; reflexivity|].
+    unfold interior_nums, nds_numbers. apply in_flat_map. exists x1. split; [exact (interior_nds_mid p P x0 x1 x2 S Hnds) | exact Hi]. }
+  (* the list of all numbers, split around node x1 *)
+  assert (Hsplit : bars_numbers bars =
+            (bars_numbers B1 ++ nds_numbers (P ++ [x0])) ++ d3_list (snd x1) ++ (nds_numbers (x2 :: S) ++ bars_numbers B2)).
+  { rewrite Hb, bars_numbers_app. unfold bars_numbers at 2. cbn [flat_map]. fold (bars_numbers B2).
+    rewrite Hnds.
+    replace (P ++ x0 :: x1 :: x2 :: S) with ((P ++ [x0]) ++ [x1] ++ x2 :: S) by (rewrite <- app_assoc; reflexivity).
+    rewrite !nds_numbers_app. unfold nds_numbers at 3. cbn [flat_map]. rewrite app_nil_r.
+    rewrite <- !app_assoc. reflexivity. }
+  assert (Hcount : forall i, In i (d3_list (snd x1)) ->
+            count_occ Nat.eq_dec (d3_list (snd x1)) i = 1%nat /\
+            count_occ Nat.eq_dec (bars_numbers B1 ++ nds_numbers (P ++ [x0])) i = 0%nat /\
+            count_occ Nat.eq_dec (nds_numbers (x2 :: S) ++ bars_numbers B2) i = 0%nat).
+  { intros i Hi. specialize (H i (Hin i Hi)).
+    apply andb_prop in H as (H & _). apply andb_prop in H as (H & _). apply andb_prop in H as (H & _).
+    apply Nat.eqb_eq in H. rewrite Hsplit, !count_occ_app in H.
+    assert (G : (1 <= count_occ Nat.eq_dec (d3_list (snd x1)) i)%nat).
+    { apply (count_occ_In Nat.eq_dec) in Hi. lia. }
+    rewrite !count_occ_app. lia. }
+  split.
+  - apply (NoDup_count_occ' Nat.eq_dec). intros i Hi. apply (Hcount i Hi).
+  - intros i Hi. pose proof (H i (Hin i Hi)) as Hb4.
+    apply andb_prop in Hb4 as (Hb3 & Hrow). apply andb_prop in Hb3 as (Hb2 & Hsup). apply andb_prop in Hb2 as (_ & Hlt).
+    apply Nat.ltb_lt in Hlt. apply negb_true_iff in Hsup. apply negb_true_iff in Hrow.
+    destruct (Hcount i Hi) as (_ & C1 & C2). rewrite count_occ_app in C1, C2.
+    assert (Z1 : count_occ Nat.eq_dec (bars_numbers B1) i = 0%nat) by lia.
+    assert (Z2 : count_occ Nat.eq_dec (nds_numbers (P ++ [x0])) i = 0%nat) by lia.
+    assert (Z3 : count_occ Nat.eq_dec (nds_numbers (x2 :: S)) i = 0%nat) by lia.
+    assert (Z4 : count_occ Nat.eq_dec (bars_numbers B2) i = 0%nat) by lia.
+    apply count_occ_zero_notin in Z1, Z2, Z3, Z4.
+    repeat split; try assumption.
+    + intro G. apply Z2. rewrite nds_numbers_app. apply in_or_app. right. unfold nds_numbers. cbn [flat_map]. rewrite app_nil_r. exact G.
+    + intro G. apply Z3. unfold nds_numbers. cbn [flat_map]. apply in_or_app. left. exact G.
+Qed.
+
+Definition nums_below_b (n : nat) (bars : list (pbar Q)) : bool :=
+  forallb (fun sl => forallb (fun d => Nat.ltb d n) (s_nums sl)) (all_slices bars).
+Lemma nums_below_b_sound n bars : nums_below_b n bars = true -> Forall (nums_below n) (all_slices bars).
+Proof.
+  unfold nums_below_b. rewrite forallb_forall. intros H. apply Forall_forall. intros sl Hsl.
+  specialize (H sl Hsl). rewrite forallb_forall in H. apply Forall_forall. intros d Hd. apply Nat.ltb_lt. exact (H d Hd).
+Qed.
+
+Definition no_tiny_b (k : list (list Q)) : bool :=
+  forallb (fun p => forallb (fun q => Qeq_bool (entry k p q) 0 || Qle_bool (1 # 10000000000) (Qabs (entry k p q))) (seq 0 6)) (seq 0 6).
+Lemma no_tiny_b_sound k : no_tiny_b k = true -> no_tiny k.
+Proof.
+  unfold no_tiny_b. rewrite forallb_forall. intros H p q Hp Hq.
+  specialize (H p ltac:(apply in_seq; lia)). rewrite forallb_forall in H. specialize (H q ltac:(apply in_seq; lia)).
+  apply orb_prop in H as [H|H]; [left; apply Qeq_bool_iff; exact H | right; apply Qle_bool_iff; exact H].
+Qed.
+
+Definition slices_sound_b (p : pbar Q) : bool :=
+  let b := pb_bar p in
+  negb (Qeq_bool (b_E b) 0) && negb (Qeq_bool (b_A b) 0) && negb (Qeq_bool (b_I b) 0) && negb (Qeq_bool (b_S b) 0)
+  && Qeq_bool (b_c b * b_c b + b_s b * b_s b) 1
+  && forallb (fun sl => negb (Qeq_bool (slice_len b (s_na sl) (s_nb sl)) 0) && no_tiny_b (s_k sl)) (bar_slices p).
+Lemma Qeq_bool_false_neq (a b : Q) : negb (Qeq_bool a b) = true -> ~ a == b.
+Proof. intros H E. apply Qeq_bool_iff in E. rewrite E in H. discriminate. Qed.
+Lemma slices_sound_b_sound p : slices_sound_b p = true -> slices_sound p.
+Proof.
+  unfold slices_sound_b. cbv zeta. intros H.
+  apply andb_prop in H as (H & Hsl). apply andb_prop in H as (H & Hcs). apply andb_prop in H as (H & HS).
+  apply andb_prop in H as (H & HI). apply andb_prop in H as (HE & HA).
+  split; [repeat split; apply Qeq_bool_false_neq; assumption|].
+  split; [apply Qeq_bool_iff; exact Hcs|].
+  rewrite forallb_forall in Hsl. intros sl Hin. specialize (Hsl sl Hin). apply andb_prop in Hsl as (L & K).
+  split; [apply Qeq_bool_false_neq; exact L | apply no_tiny_b_sound; exact K].
+Qed.
+
+(* the same theorem with hypotheses that can be computed *)
+Theorem system_gives_interior_equilibrium_b n sup u bars :
+  nums_below_b n bars = true -> interior_private_b n sup bars = true -> forallb slices_sound_b bars = true ->
+  solves n bars sup u ->
+  forall B1 p B2, bars = B1 ++ p :: B2 -> interior_ok (pb_bar p) u (pbar_nds p).
+Proof.
+  intros Hn Hp Hsd Hs B1 p B2 Hb.
+  apply (system_gives_interior_equilibrium n sup u bars (nums_below_b_sound n bars Hn) (interior_private_b_sound n sup bars Hp) Hs B1 p B2 Hb).
+  apply slices_sound_b_sound. rewrite forallb_forall in Hsd. apply Hsd. rewrite Hb. apply in_or_app. right. left. reflexivity.
+Qed.
+
+(* ---------- global equilibrium: virtual work of a rigid movement ---------- *)
+
+(* weighted sum of a list of (number, value) terms *)
+Definition wsum (w : nat -> Q) (l : list (nat * Q)) : Q := qsum (map (fun t => w (fst t) * snd t) l).
+
+Lemma qsum_app (a b : list Q) : qsum (a ++ b) == qsum a + qsum b.
+Proof. unfold qsum. induction a as [|x a IH]; simpl; [ring | rewrite IH; ring]. Qed.
+
+Lemma wsum_app w a b : wsum w (a ++ b) == wsum w a + wsum w b.
+Proof. unfold wsum. rewrite map_app. apply qsum_app. Qed.
+
+Lemma fsum_weighted_fraw n (w : nat -> Q) (l : list (nat * Q)) :
+  Forall (fun t => (fst t < n)%nat) l ->
+  fsum n (fun i => w i * fraw_at l i) == wsum w l.
+Proof.
+  induction l as [|t l IH]; intros H.
+  - unfold wsum. cbn [map qsum fold_right]. rewrite <- (fsum_zero n). apply fsum_ext. intros i _. rewrite fraw_at_nil. ring.
+  - inversion H as [|? ? Ht Hl]; subst.
+    change (t :: l) with ([t] ++ l). rewrite wsum_app, <- (IH Hl).
+    unfold wsum at 1. cbn [map qsum fold_right].
+    rewrite <- (fsum_pick n (fst t) (fun i => w i * snd t) Ht), <- fsum_add.
+    apply fsum_ext. intros i _. cbn [app]. rewrite fraw_at_cons.
+    destruct (Nat.eqb (fst t) i); ring.
+Qed.
+
+(* w, restricted to the six numbers of a finite element, is a movement that costs the element
+   no force: every column of the element stiffness is orthogonal to it *)
+Definition free_mode (w : nat -> Q) (sl : slice) : Prop :=
+  forall q, (q < 6)%nat ->
+    qsum (map (fun p => w (nth p (s_nums sl) 0%nat) * entry (s_k sl) p q) (seq 0 6)) == 0.
+
+Lemma free_mode_no_work w u sl : no_tiny (s_k sl) -> free_mode w sl -> wsum w (s_fterms u sl) == 0.
+Proof.
+  intros Hk Hm. unfold wsum, s_fterms. rewrite map_map. cbn [fst snd].
+  transitivity (qsum (map (fun p => qsum (map (fun q => w (nth p (s_nums sl) 0%nat) * entry (s_k sl) p q * uget u (nth q (s_nums sl) 0%nat)) (seq 0 6))) (seq 0 6))).
+  { apply qsum_ext_in. intros p Hp. apply in_seq in Hp.
+    rewrite (s_force_unfiltered u sl p Hk) by lia.
+    rewrite Qmult_comm, qsum_scale_r. apply qsum_ext. intros q. ring. }
+  rewrite qsum_swap.
+  transitivity (qsum (map (fun _ : nat => 0) (seq 0 6))); [| apply qsum_map_zero].
+  apply qsum_ext_in. intros q Hq. apply in_seq in Hq.
+  transitivity (qsum (map (fun p => w (nth p (s_nums sl) 0%nat) * entry (s_k sl) p q) (seq 0 6)) * uget u (nth q (s_nums sl) 0%nat)).
+  { rewrite qsum_scale_r. reflexivity. }
+  rewrite (Hm q) by lia. ring.
+Qed.
+
+Lemma k_terms_below n u bars : Forall (nums_below n) (all_slices bars) ->
+  Forall (fun t => (fst t < n)%nat) (k_terms u bars).
+Proof.
+  intros H. unfold k_terms. apply Forall_forall. intros t Ht.
+  apply in_flat_map in Ht as (sl & Hsl & Ht). rewrite Forall_forall in H. specialize (H sl Hsl).
+  unfold nums_below in H. rewrite Forall_forall in H. apply H.
+  rewrite <- s_fterms_numbers with (u := u). apply in_map. exact Ht.
+Qed.
+
+(* the elements of the whole structure do no work on a movement that is free for each of them *)
+Lemma free_mode_no_work_all w u bars :
+  Forall (fun sl => no_tiny (s_k sl) /\ free_mode w sl) (all_slices bars) -> wsum w (k_terms u bars) == 0.
+Proof.
+  unfold k_terms. induction (all_slices bars) as [|sl sls IH]; intros H; [reflexivity|].
+  inversion H as [|? ? (Hk & Hm) Hr]; subst. cbn [flat_map]. rewrite wsum_app, IH by assumption.
+  rewrite (free_mode_no_work w u sl Hk Hm). ring.
+Qed.
+
+(* the force the supports provide at a number: element forces minus assembled loads *)
+Definition support_force (u : list Q) (bars : list (pbar Q)) (i : nat) : Q :=
+  fraw_at (k_terms u bars) i - fraw_at (all_fterms bars) i.
+
+(* THEOREM (global equilibrium, virtual-work form): for any movement w that is free for every
+   finite element (the rigid translations and rotations are), the forces at the supported numbers
+   and all the assembled nodal loads do no work together: sum_sup w_i R_i + sum_nodes w . f = 0 *)
+Theorem support_forces_balance_loads n sup u bars (w : nat -> Q) :
+  Forall (nums_below n) (all_slices bars) ->
+  Forall (fun t => (fst t < n)%nat) (all_fterms bars) ->
+  solves n bars sup u ->
+  (forall i, (i < n)%nat -> row_empty (all_contribs bars) i = true -> fraw_at (all_fterms bars) i == 0) ->
+  Forall (fun sl => no_tiny (s_k sl) /\ free_mode w sl) (all_slices bars) ->
+  fsum n (fun i => if is_supported sup i then w i * support_force u bars i else 0) + wsum w (all_fterms bars) == 0.
+Proof.
+  intros Hn Hf Hs Horph Hmode.
+  assert (E : fsum n (fun i => if is_supported sup i then w i * support_force u bars i else 0)
+              == fsum n (fun i => w i * support_force u bars i)).
+  { apply fsum_ext. intros i Hi. destruct (is_supported sup i) eqn:Es; [reflexivity|].
+    unfold support_force.
+    destruct (row_empty (all_contribs bars) i) eqn:Er.
+    - rewrite (Horph i Hi Er).
+      rewrite <- (raw_row_is_element_forces n u bars i Hn).
+      setoid_replace (fsum n (fun j => kraw_at (all_contribs bars) i j * uget u j)) with 0; [ring|].
+      rewrite <- (fsum_zero n). apply fsum_ext. intros j _. rewrite (row_empty_kraw _ i j Er). ring.
+    - rewrite (row_is_equilibrium n bars sup u i Hn Hs Hi Es Er). ring. }
+  rewrite E. unfold support_force.
+  transitivity (fsum n (fun i => w i * fraw_at (k_terms u bars) i) - fsum n (fun i => w i * fraw_at (all_fterms bars) i) + wsum w (all_fterms bars)).
+  { apply Qplus_inj_r.
+    setoid_replace (fsum n (fun i => w i * fraw_at (k_terms u bars) i) - fsum n (fun i => w i * fraw_at (all_fterms bars) i))
+      with (fsum n (fun i => w i * fraw_at (k_terms u bars) i) + fsum n (fun i => (-1) * (w i * fraw_at (all_fterms bars) i))).
+    - rewrite <- fsum_add. apply fsum_ext. intros i _. ring.
+    - rewrite fsum_scale. ring. }
+  rewrite (fsum_weighted_fraw n w (k_terms u bars) (k_terms_below n u bars Hn)).
+  rewrite (fsum_weighted_fraw n w (all_fterms bars) Hf).
+  rewrite (free_mode_no_work_all w u bars Hmode). ring.
+Qed.
